@@ -10,11 +10,11 @@ def L(ns, nm): return [(r'vp_mem(cpy|move)_u8', ns * 2 + 2), (r'vpx_memcmp', nm 
 def queries():
     qs = []
     SV = dict(config='small', noinline=True, stubs=('_ZNSt6vector', '_ZNKSt6vector'))
-    def split_q(nm_, op, ns, nm, tier):
-        return Q('%s_s%d_m%d_%s' % (nm_, ns, nm, tier), 'C09_split.c', 'split.cpp', defs={'OP': op, 'NS': ns, 'NM': nm}, unwind=ns + 3, hunwind=ns + 5, loops=L(ns, nm), heap_cap=16, object_bits=10, tiers=(tier,),
+    def split_q(nm_, op, ns, nm, tier, ci=None):
+        return Q('%s_s%d_m%d%s_%s' % (nm_, ns, nm, '' if ci is None else '_ci%d' % ci, tier), 'C09_split.c', 'split.cpp', defs=dict({'OP': op, 'NS': ns, 'NM': nm}, **({} if ci is None else {'CI': ci})), unwind=ns + 3, hunwind=ns + 5, loops=L(ns, nm), heap_cap=16, object_bits=10, tiers=(tier,),
                  bound={'op': nm_, 'subject': ns, 'separator': nm, 'max_splits': 'any 64-bit'}, timeout=900 if tier == 'quick' else 3000, mem_gb=8, **SV)
-    def repl_q(ns, nm, nt, tier):
-        return Q('replace_s%d_f%d_t%d_%s' % (ns, nm, nt, tier), 'C09_split.c', 'string.cpp', config='small', defs={'OP': 5, 'NS': ns, 'NM': nm, 'NT': nt}, unwind=ns + 3, hunwind=2 * ns + 6, loops=L(ns, nm),
+    def repl_q(ns, nm, nt, tier, ci=None):
+        return Q('replace_s%d_f%d_t%d%s_%s' % (ns, nm, nt, '' if ci is None else '_ci%d' % ci, tier), 'C09_split.c', 'string.cpp', config='small', defs=dict({'OP': 5, 'NS': ns, 'NM': nm, 'NT': nt}, **({} if ci is None else {'CI': ci})), unwind=ns + 3, hunwind=2 * ns + 6, loops=L(ns, nm),
                  heap_cap=16, tiers=(tier,), bound={'op': 'replace', 'subject': ns, 'pattern': nm, 'replacement': nt}, timeout=900 if tier == 'quick' else 3000, mem_gb=10)
     # quick: measured <= 60 s each (3-byte subjects; the 200-370 s combinations run at 2 bytes here and at 3-4 bytes in thorough)
     for op, nm_, seps in ((1, 'split_str', (0, 1, 2)), (3, 'split_ch', (1,)), (4, 'tokenize', (0, 1, 2))):
@@ -22,6 +22,11 @@ def queries():
     qs.append(split_q('split_cstr', 2, 3, 0, 'quick'))
     for nm in (1, 2): qs.append(split_q('split_cstr', 2, 2, nm, 'quick'))
     for ns, nm, nt in ((3, 1, 1), (2, 1, 2), (2, 1, 0), (2, 2, 1), (3, 0, 1), (3, 2, 1)): qs.append(repl_q(ns, nm, nt, 'quick'))   # (3,2,1): 225 s, the smallest case with a self-overlapping pattern
+    # a self-overlapping separator whose real occurrence starts inside a failed partial match ("aab" in "aaab") needs subject 4 / separator 3: one query per case mode
+    # (the case-sensitive and case-insensitive scanners are separate code)
+    for ci in (0, 1):
+        qs.append(split_q('split_str', 1, 4, 3, 'quick', ci))
+        q = repl_q(4, 3, 1, 'thorough', ci); q.mem_gb = 24; qs.append(q)     # out of memory at 10 GB (81-124 s): thorough only
     for ns in (3, 4):
         for op, nm_, seps in ((1, 'split_str', (1, 2)), (2, 'split_cstr', (1, 2)), (3, 'split_ch', (1,)), (4, 'tokenize', (1, 2))):
             for nm in seps:
